@@ -253,7 +253,7 @@ func runC02(c *fw.Ctx) {
 								continue // a media upload has no place for a declared MD5
 							}
 							prev := GOp{Kind: "Upload", Proto: "media", Bucket: "b1", Name: name, Data: []byte("previous"), Meta: gcs.ObjMeta{ContentType: "text/old"}}
-							up := GOp{Kind: "Upload", Proto: proto, Bucket: "b1", Name: name, Data: data, Meta: meta, Gzip: gzi >= 1}
+							up := GOp{Kind: "Upload", Proto: proto, Bucket: "b1", Name: name, Data: data, Meta: meta, Gzip: gzi >= 1, RetryFinal: md >= 2}
 							if gzi == 2 {
 								if len(data) < 3 {
 									continue
